@@ -40,6 +40,9 @@ pub fn place_docs(docs: &[(usize, &[String])], sibling_doc: bool) -> Program {
     let i32t = || MType::prim("int32");
     let mut outer = MFile::module("Outer");
     outer.defs.push(st("OS", vec![MField::new("of", i32t())]));
+    // names that are shadowed along a scope chain: Outer::IS next to Outer::Inner::IS, and (below) a field named IS, a
+    // parameter named OS and an enumerator named IC inside the documented elements
+    outer.defs.push(st("IS", vec![MField::new("outer_f", i32t())]));
     let mut z = MFile::module("Z");
     z.defs.push(st("ZS", vec![]));
     let mut f = MFile::module("Outer::Inner");
@@ -50,12 +53,12 @@ pub fn place_docs(docs: &[(usize, &[String])], sibling_doc: bool) -> Program {
     f.defs.push(custom("IC"));
     f.defs.push(alias("IA", i32t()));
     // the documented element
-    let mut s = MStruct { c: MCommon::new("DS"), compact: false, fields: vec![MField::new("m", i32t()), MField::new("n", MType::prim("string"))] };
-    let mut o = op("dop", vec![MParam::new("a", i32t()), MParam::new("b", i32t())], MRet::Tuple(vec![MParam::new("x", i32t()), MParam::new("y", i32t())]));
+    let mut s = MStruct { c: MCommon::new("DS"), compact: false, fields: vec![MField::new("m", i32t()), MField::new("n", MType::prim("string")), MField::new("IS", i32t())] };
+    let mut o = op("dop", vec![MParam::new("a", i32t()), MParam::new("b", i32t()), MParam::new("OS", i32t())], MRet::Tuple(vec![MParam::new("x", i32t()), MParam::new("y", i32t())]));
     let mut o1 = op("single", vec![MParam::new("a", i32t())], MRet::Single { tag: None, stream: false, ty: i32t() });
     let mut o0 = op("noret", vec![], MRet::None);
     let mut it = MInterface { c: MCommon::new("DI"), bases: vec![], ops: vec![] };
-    let mut e = MEnum { c: MCommon::new("DE"), compact: false, unchecked: false, underlying: None, enumerators: vec![MEnumerator { c: MCommon::new("DA"), fields: Some(vec![MField::new("df", i32t())]), value: None }, enumerator("DB")] };
+    let mut e = MEnum { c: MCommon::new("DE"), compact: false, unchecked: false, underlying: None, enumerators: vec![MEnumerator { c: MCommon::new("DA"), fields: Some(vec![MField::new("df", i32t())]), value: None }, enumerator("DB"), enumerator("IC")] };
     let mut cu = MCustom { c: MCommon::new("DC") };
     let mut al = MAlias { c: MCommon::new("DT"), ty: i32t() };
     for (pos, lines) in docs {
